@@ -2,8 +2,10 @@ CONSTANTS
   MaxChains = 2
   MaxFactors = 3
   Emit = TRUE
+  OrGuard = TRUE
 INIT Init
 NEXT Next
 INVARIANT ClassesExact
+INVARIANT Equivalent
 INVARIANT EmitTrace
 CHECK_DEADLOCK FALSE
